@@ -114,7 +114,9 @@ BinAP(ys, ss, u) ==
         tp(th) == Count(m, LAMBDA j : ss[j] >= th /\ ys[j] = 1)
         pp(th) == Count(m, LAMBDA j : ss[j] >= th)
         at(th) == Count(m, LAMBDA j : ss[j] = th /\ ys[j] = 1)
-        terms == [x \in 1..(u + 1) |-> IF at(x - 1) = 0 THEN 0 ELSE at(x - 1) * tp(x - 1) * (D(m) \div pp(x - 1))]
+        \* one term per distinct threshold: the score of item j, unless an earlier item has the same score
+        terms == [j \in 1..m |-> IF (\E i \in 1..(j - 1) : ss[i] = ss[j]) \/ at(ss[j]) = 0 THEN 0
+                                  ELSE at(ss[j]) * tp(ss[j]) * (D(m) \div pp(ss[j]))]
     IN  [def |-> P > 0, num |-> SumSeq(terms), den |-> Max(P, 1) * D(m), pos |-> P]
 
 \* rows: sequence of [y (indicator over 1..C), s]; macro mean over classes of the per-class AP over the rows.
